@@ -60,8 +60,8 @@ def scenario(ctx, rng, j):
     t_ = tools
     R, F, X = rbytes(rng, 32), rbytes(rng, 32), rbytes(rng, 32)
     pR, pF = sigmsg.pubkey(R), sigmsg.pubkey(F)
-    fields = {'sigfield1': rbytes(rng, rng.choice((1, 16, 64))),
-              'sigfield2': rbytes(rng, 4)}
+    from ..gen import auth as _auth
+    fields = _auth.sigfields(rng, must=(1,))
     allowed = rng.choice((0, 0, 2, 3, 0xff))
     f = rng.choice([x for x in (0, 2) if not (x & ~allowed & 0xff)])
     a_hex, f_hex = f'{allowed:02x}', f'{f:02x}'
